@@ -32,6 +32,8 @@ type PipeGenOpts struct {
 	FillToMax   bool // some datagrams are padded to within 40 octets of max-udp-size
 	SmallUDP    bool // max-udp-size may be small
 	BadHeaders  bool // datagrams whose header must be rejected (wrong version, too short)
+	Dyn         bool // dynamic workers: load peak, long idle period (scale-down), then traffic again
+	Hostile     bool // add hostile exporters (structurally hostile and byte-corrupted datagrams) and liveness probes
 }
 
 func pickSubset(r *rand.Rand, all []string) []string {
@@ -310,6 +312,60 @@ func genPipePlan(seed int64, o PipeGenOpts) *PipePlan {
 			}
 		}
 	}
+	if o.Dyn {
+		// the dynamic-worker controller ticks every 120 s, samples the work queue
+		// for 30 s, adds workers under load and retires them (closing their quit
+		// channel) after 16 idle cycles. Phase 1 is moved onto the sampling
+		// instants as bursts, the last phase far behind the scale-down.
+		p.Cfg.DynWorkers = true
+		p.Cfg.CapUDP = 1000
+		p.Cfg.KeepBias = 950 // long uninterrupted stretches: bursts pile up in the queue before the sampler looks
+		p.Cfg.StallProb = 0
+		for k := range p.Cfg.Workers {
+			p.Cfg.Workers[k] = 1 + r.Intn(2)
+		}
+		var ph1 []int
+		for i := range p.Dels {
+			if p.Dels[i].Phase >= 1 && p.Dels[i].DupOf == 0 && !p.Dels[i].BadHeader {
+				ph1 = append(ph1, i)
+			}
+		}
+		n := len(p.Dels)
+		if len(ph1) > 0 {
+			// bursts: every phase >= 1 delivery is re-sent (new sequence number) on several sampling instants
+			for inst := 0; inst < 30; inst++ {
+				for _, i := range ph1 {
+					if len(p.Dels) > n+600 {
+						break
+					}
+					d := p.Dels[i]
+					d.Phase = 1
+					d.AbsUs = int64(121+inst) * 1000000
+					d.AtUs = 0
+					restamp(&d, uint32(20000+len(p.Dels)))
+					add(d)
+				}
+			}
+			for _, i := range ph1 {
+				// the original later-phase traffic follows the scale-down
+				p.Dels[i].Phase = 2
+				// the first workers are retired when the 17th sampling window ends
+				// (t = 2070 s); the receive loop drops one pooled buffer per idle
+				// second, so traffic must follow the retirement closely
+				p.Dels[i].AbsUs = 2070*1000000 + int64(r.Intn(5))*200000
+				p.Dels[i].AtUs = 0
+			}
+			// and a second copy of it in the same instants, so that several
+			// datagrams are in flight at once
+			for _, i := range ph1 {
+				d := p.Dels[i]
+				restamp(&d, uint32(40000+len(p.Dels)))
+				add(d)
+			}
+			nPhases = 3
+			p.NPhases = 3
+		}
+	}
 	if o.BadHeaders {
 		// rejected datagrams, interleaved with the rest: wrong version or
 		// shorter than the protocol header
@@ -348,6 +404,96 @@ func genPipePlan(seed int64, o PipeGenOpts) *PipePlan {
 			add(Delivery{Phase: r.Intn(nPhases), AtUs: at(), Proto: src.Proto, Exporter: src.Exporter, Raw: raw, BadHeader: true})
 		}
 	}
+	if o.Hostile {
+		// hostile exporters: the histories of the library-level scenario,
+		// delivered through the sockets in random phases; clean exporters keep
+		// their exact expectations; a last phase carries one liveness probe per
+		// clean flow exporter / protocol
+		for _, proto := range o.Protos {
+			lp := genLibPlan(r.Int63(), proto, "quick")
+			base := len(p.Exporters)
+			for _, ex := range lp.Exporters {
+				ex.Hostile = true
+				// addresses disjoint from every clean exporter by construction
+				switch r.Intn(3) {
+				case 0:
+					ex.Addr = []byte{172, byte(16 + r.Intn(16)), byte(r.Intn(256)), byte(1 + r.Intn(254))}
+				case 1:
+					ex.Addr = []byte{0, 0, 0, 0, 0, 0, 0, 0, 0, 0, 0xff, 0xff, 172, byte(16 + r.Intn(16)), byte(r.Intn(256)), byte(1 + r.Intn(254))}
+				default:
+					ex.Addr = make([]byte, 16)
+					r.Read(ex.Addr)
+					ex.Addr[0] = 0xfd
+				}
+				ex.Domain = uint32(len(p.Exporters) + 1)
+				p.Exporters = append(p.Exporters, ex)
+			}
+			for _, it := range lp.Items {
+				if len(p.Dels) > maxDels+60 {
+					break
+				}
+				d := it
+				d.Exporter = base + it.Exporter
+				d.Phase = r.Intn(nPhases)
+				d.AtUs = at()
+				d.DupOf = 0
+				add(d)
+			}
+		}
+		probePhase := nPhases
+		nPhases++
+		p.NPhases = nPhases
+		n := len(p.Dels)
+		seenEx := map[int]bool{}
+		for i := n - 1; i >= 0; i-- {
+			d := p.Dels[i]
+			if p.Exporters[d.Exporter].Hostile || seenEx[d.Exporter] || d.DupOf > 0 || d.BadHeader || len(d.Mut) > 0 || d.Raw != nil {
+				continue
+			}
+			if d.Abs != nil {
+				hasData, hasTpl := false, false
+				for _, s := range d.Abs.Sets {
+					if s.Kind == model.SetData {
+						hasData = true
+					}
+					if s.Kind == model.SetTemplate || s.Kind == model.SetOptions {
+						hasTpl = true
+					}
+				}
+				if !hasData || hasTpl || d.Phase == 0 {
+					continue
+				}
+				m := *d.Abs
+				m.Seq = uint32(70000 + len(p.Dels))
+				d.Abs = &m
+			} else if d.V5 != nil {
+				if d.V5.Version != 5 || d.V5.Count < 1 || d.V5.Count > 30 || len(d.V5.Flows) < int(d.V5.Count) || d.V5.CutTo > 0 {
+					continue
+				}
+				v := *d.V5
+				v.Seq = uint32(70000 + len(p.Dels))
+				d.V5 = &v
+			} else if d.SF != nil {
+				ok := false
+				for _, sm := range d.SF.Samples {
+					if sm.Format == 1 || sm.Format == 2 {
+						ok = true
+					}
+				}
+				if !ok {
+					continue
+				}
+				sf := *d.SF
+				sf.Seq = uint32(70000 + len(p.Dels))
+				d.SF = &sf
+			}
+			seenEx[d.Exporter] = true
+			d.Phase = probePhase
+			d.AtUs = r.Intn(5000)
+			d.Probe = true
+			add(d)
+		}
+	}
 	if p.Cfg.CapMQ <= len(p.Dels) {
 		p.Cfg.CapMQ = len(p.Dels) + 8
 	}
@@ -355,6 +501,24 @@ func genPipePlan(seed int64, o PipeGenOpts) *PipePlan {
 		p.Cfg.CapMQ = 1 + r.Intn(3)
 	}
 	return p
+}
+
+// restamp gives a copy of a delivery its own sequence number.
+func restamp(d *Delivery, seq uint32) {
+	switch {
+	case d.Abs != nil:
+		m := *d.Abs
+		m.Seq = seq
+		d.Abs = &m
+	case d.V5 != nil:
+		v := *d.V5
+		v.Seq = seq
+		d.V5 = &v
+	case d.SF != nil:
+		sf := *d.SF
+		sf.Seq = seq
+		d.SF = &sf
+	}
 }
 
 func marshalPlan(p *PipePlan) []byte {
